@@ -10,6 +10,9 @@ Y = 2000
 
 
 def run(ctx):
+    from rules import shared
+    ctx.include('month_records', shared.month_records)   # leap table, solstice anchor, month memo, memo cells (shared, cached per source hash)
+    ctx.include('jd_tables', shared.jd_tables)           # civil date <-> day number per (year, month) (shared, cached per source hash)
     I = ctx.interp(fuel=80000000)
     t = T(I)
     p = ctx.prog
@@ -132,6 +135,22 @@ def run(ctx):
         kk = 3 + 2 * (k + 1)
         b = terms[(Y, kk)][0] if kk < 24 else terms[(Y + 1, kk - 24)][0]
         return list(range(a, b))
+    terms_j = typical_terms(range(Y - 1, Y + 4), shift=dict((i, -12) for i in range(24)))
+    cm3 = CalModel(I, terms_j, lmonths)
+
+    def smdays_j(k):
+        CalModel(I, terms_j, lmonths)
+        m = I.call('SixtyCycleMonth::from_index', [Y, k])
+        ds = t.m(m, 'get_days')
+        return [cm3.n_of(t.m(d, 'get_solar_day')) for d in ds]
+
+    def smdays_j_orc(k):
+        a = terms_j[(Y, 3 + 2 * k)][0] if 3 + 2 * k < 24 else terms_j[(Y + 1, 3 + 2 * k - 24)][0]
+        kk = 3 + 2 * (k + 1)
+        b = terms_j[(Y, kk)][0] if kk < 24 else terms_j[(Y + 1, kk - 24)][0]
+        return list(range(a, b))
+    table(ctx, 'PETE-SCENARIO', 'SixtyCycleMonth::get_days:julian-era', range(12), smdays_j, smdays_j_orc, 'the same with the Jie days ~12 days earlier in the civil month (Julian era): the Jie day itself belongs to the new month', lambda k: u'%s月' % G.BRANCHES[(2 + k) % 12], fn_site(p, 'SixtyCycleMonth::get_days'))
+    CalModel(I, terms, lmonths)
     table(ctx, 'PETE-SCENARIO', 'SixtyCycleMonth::get_days', range(12), smdays, smdays_orc, 'a sexagenary month lists exactly the days from its Jie day to the day before the next Jie', lambda k: u'%s月' % G.BRANCHES[(2 + k) % 12], fn_site(p, 'SixtyCycleMonth::get_days'))
 
     ctx.assumptions.append('civil date <-> day number replaced by the calendar oracle (C01); lunar months and term days are scenario inputs (C02/C03, C05/C06)')
